@@ -187,9 +187,157 @@ func runC17BabbleReturn(cs CaseSpec) *CaseResult {
 	return res
 }
 
+// runC17SuspendCall: the application suspends a node (Node.Suspend, public
+// API) while three live validators keep pushing events at it and its store is
+// slow (injected delays inside the writes it makes under its core lock), so
+// that request handlers which passed the state gate are queueing on that lock.
+// When Suspend() returns the node must be frozen: whatever was in flight has
+// to be over by then, however long it takes.
+func runC17SuspendCall(cs CaseSpec) *CaseResult {
+	res := newResult(cs)
+	seed := cs.Seed*1000 + int64(cs.Index)
+	n := 4
+	var all []*liveNode
+	defer func() {
+		for _, l := range all {
+			func() {
+				defer func() { recover() }()
+				l.Node.Shutdown()
+			}()
+		}
+	}()
+	keys := []*SimKey{}
+	ps := []*peers.Peer{}
+	trs := []*bnet.NetworkTransport{}
+	for i := 0; i < n; i++ {
+		kk := &SimKey{detKey(seed, "c17call", i)}
+		keys = append(keys, kk)
+		tr, err := bnet.NewTCPTransport("127.0.0.1:0", "", 3, 300*time.Millisecond, 300*time.Millisecond, quietLogger())
+		if err != nil {
+			res.inconclusive(err.Error())
+			return res
+		}
+		trs = append(trs, tr)
+		ps = append(ps, mkPeer(kk.K, tr.LocalAddr(), fmt.Sprintf("c17call%d", i)))
+	}
+	jit := newJitter(seed, 1, time.Duration(2+cs.I("slow_ms", 6))*time.Millisecond)
+	for i := 0; i < n; i++ {
+		i := i
+		l := &liveNode{Key: keys[i], Peer: ps[i], Trans: trs[i]}
+		conf := config.NewDefaultConfig()
+		conf.LogLevel = "panic"
+		conf.HeartbeatTimeout = 5 * time.Millisecond
+		conf.SlowHeartbeatTimeout = 20 * time.Millisecond
+		conf.TCPTimeout = 300 * time.Millisecond
+		conf.SuspendLimit = 1000000
+		conf.CacheSize = 20000
+		conf.Moniker = ps[i].Moniker
+		var store hg.Store = hg.NewInmemStore(conf.CacheSize)
+		if i == 0 {
+			// the watched node: slow store, and a short transport timeout in its
+			// configuration (the transport object itself keeps 300 ms)
+			conf.TCPTimeout = time.Duration(10+cs.I("tcp_ms", 10)) * time.Millisecond
+			store = &jitterStore{Store: store, j: jit}
+		}
+		l.Conf = conf
+		l.App = NewApp(ps[i].Moniker)
+		l.Proxy = inmem.NewInmemProxy(l.App, conf.Logger())
+		l.Node = node.NewNode(conf, node.NewValidator(keys[i].K, ps[i].Moniker), peers.NewPeerSet(clonePeers(ps)), peers.NewPeerSet(clonePeers(ps)), store, trs[i], l.Proxy)
+		if err := l.Node.Init(); err != nil {
+			res.inconclusive(err.Error())
+			return res
+		}
+		all = append(all, l)
+	}
+	a := all[0]
+	for _, l := range all {
+		l.Node.RunAsync(true)
+	}
+	stop := make(chan struct{})
+	defer close(stop)
+	go func() {
+		i := 0
+		for {
+			select {
+			case <-stop:
+				return
+			default:
+			}
+			for _, l := range all[1:] {
+				func() {
+					defer func() { recover() }()
+					l.Proxy.SubmitTx([]byte(fmt.Sprintf("c17call-%d-%s", i, l.Peer.Moniker)))
+				}()
+			}
+			i++
+			time.Sleep(time.Millisecond)
+		}
+	}()
+	// let the watched node fall behind the three others
+	deadline := time.Now().Add(time.Duration(cs.I("watchdog_s", 40)) * time.Second)
+	for time.Now().Before(deadline) {
+		v := viewLive(a)
+		if v.undetermined+v.blocks*4 >= int(cs.I("warm", 40)) {
+			break
+		}
+		time.Sleep(5 * time.Millisecond)
+	}
+	if time.Now().After(deadline) {
+		res.inconclusive("watchdog: the watched node did not receive enough events")
+		return res
+	}
+	// (under sustained incoming traffic the wait inside Suspend can take long:
+	// refusal handlers keep being launched while it waits; a wall-clock
+	// watchdog makes such a run inconclusive)
+	suspDone := make(chan struct{})
+	go func() {
+		a.Node.Suspend()
+		close(suspDone)
+	}()
+	select {
+	case <-suspDone:
+	case <-time.After(25 * time.Second):
+		res.inconclusive("watchdog: Suspend() did not return within 25 s under the incoming traffic")
+		return res
+	}
+	at := viewLive(a)
+	var known0 int
+	a.Node.VerifLockCore(func() {
+		for _, idx := range a.Node.VerifCore().KnownEvents() {
+			known0 += idx + 1
+		}
+	})
+	res.Evaluations++
+	res.count("live_suspend_calls_under_load", 1)
+	time.Sleep(500 * time.Millisecond)
+	after := viewLive(a)
+	var known1 int
+	a.Node.VerifLockCore(func() {
+		for _, idx := range a.Node.VerifCore().KnownEvents() {
+			known1 += idx + 1
+		}
+	})
+	res.Evaluations++
+	if after.undetermined != at.undetermined || after.ownSeq != at.ownSeq || after.blocks != at.blocks || known0 != known1 {
+		res.violate("C17", "C17:live-node-changes-after-its-suspension-completed",
+			fmt.Sprintf("live node %s changed after Suspend() had returned, while three validators kept pushing events at it: known events %d -> %d, undetermined %d -> %d, own sequence %d -> %d, blocks %d -> %d", a.Peer.Moniker,
+				known0, known1, at.undetermined, after.undetermined, at.ownSeq, after.ownSeq, at.blocks, after.blocks), map[string]interface{}{"mode": "suspend-call"})
+		return res
+	}
+	jit.mu.Lock()
+	res.count("live_injected_store_delays", jit.Naps)
+	jit.mu.Unlock()
+	res.digest("c17call", cs.Seed, cs.Index, known0)
+	res.Sample = map[string]interface{}{"kind": "Suspend() called while three live validators push at a node with a slow store", "known_events_at_return": known0, "undetermined": at.undetermined}
+	return res
+}
+
 func runC17Live(cs CaseSpec) *CaseResult {
 	if cs.Str("mode", "") == "babble-return" {
 		return runC17BabbleReturn(cs)
+	}
+	if cs.Str("mode", "") == "suspend-call" {
+		return runC17SuspendCall(cs)
 	}
 	res := newResult(cs)
 	mode := cs.Str("mode", "lonely-self")
